@@ -460,7 +460,8 @@ theorem substitution_matrix_step (r : SubRule) (w : Word) (sp : SegPos) (mods : 
     (hin : r.input = [inItem]) (hout : r.output = [.matrix mods none]) (hs : mods.suprs = {})
     (hσ : w.sylls[sp.si]? = some σ) (hgi : sp.gi < σ.segs.length) (hwf : NoEmptySyll w)
     (res : Word × Option SegPos × Binds) (h : substitution r w [.segment sp none] next b = .ok res) :
-    ∃ σ', res.1 = setSyll w sp.si σ' ∧ σ'.stress = σ.stress ∧ σ'.tone = σ.tone ∧ σ'.segs.length = σ.segs.length := by
+    ∃ σ', res.1 = setSyll w sp.si σ' ∧ σ'.stress = σ.stress ∧ σ'.tone = σ.tone ∧ σ'.segs.length = σ.segs.length ∧
+      ∃ al lc, σ.applySegMods b.alphas mods sp.gi = .ok (σ', al, lc) := by
   have hlen : sp.si < w.sylls.length := (List.getElem?_eq_some_iff.mp hσ).1
   have hrep : (List.replicate w.sylls.length (0 : Int))[sp.si]? = some 0 := by
     rw [List.getElem?_replicate]; simp [hlen]
@@ -495,7 +496,7 @@ theorem substitution_matrix_step (r : SubRule) (w : Word) (sp : SegPos) (mods : 
     rw [List.getLast?_eq_some_getLast hnn] at h
     simp only [hl2, Bool.false_eq_true, if_false] at h
     cases h
-    exact ⟨σ', rfl, h1, h2, h3⟩
+    exact ⟨σ', rfl, h1, h2, h3, al, 0, rfl⟩
   | err e =>
     have : substPairs r 1 1 0 [inItem] [.matrix mods none] [.segment sp none]
         { w := w, tlc := List.replicate w.sylls.length 0, last := { si := 0, gi := 0 }, b := b } = .err e := by
@@ -589,7 +590,7 @@ theorem feature_rule_keeps_shape (r : SubRule) (it : Item) (hit : SegItem it) (m
             | ok sres =>
               rw [hsub] at hres
               simp only [Outcome.bind_ok] at hres
-              obtain ⟨σ', e1, e2, e3, e4⟩ := substitution_matrix_step r w p mods it σ b2 (some nx) hin hout hs hσ1 hσ2 hne sres hsub
+              obtain ⟨σ', e1, e2, e3, e4, _⟩ := substitution_matrix_step r w p mods it σ b2 (some nx) hin hout hs hσ1 hσ2 hne sres hsub
               have hstep := sameShape_setSyll w p.si σ σ' hσ1 e2 e3 e4
               rw [← e1] at hstep
               have hsh' := sameShape_trans hsh hstep
